@@ -178,18 +178,39 @@ func (w *World) pathAllowed(base, p string) bool {
 
 // guard runs one store call, converting a panic in repo code into a violation.
 func (w *World) guard(what string, f func()) {
-	defer func() {
-		if x := recover(); x != nil {
+	// the call runs in a goroutine of its own so that one that never returns (a lock it waits
+	// for, a retry loop that sleeps) is a finding - an hour of simulated time without a result -
+	// rather than a hung run
+	type outcome struct {
+		pan   any
+		stack string
+	}
+	done := make(chan outcome, 1)
+	go func() {
+		defer func() {
+			x := recover()
+			o := outcome{pan: x}
+			if x != nil {
+				o.stack = string(debug.Stack())
+			}
+			done <- o
+		}()
+		f()
+	}()
+	select {
+	case o := <-done:
+		if x := o.pan; x != nil {
 			if _, ok := x.(runAbort); ok {
 				panic(x)
 			}
 			if _, ok := x.(simfs.CrashSignal); ok {
 				panic(x)
 			}
-			w.r.Fail("panic/"+what, "%s panicked: %v\n%s", what, x, debug.Stack())
+			w.r.Fail("panic/"+what, "%s panicked: %v\n%s", what, x, o.stack)
 		}
-	}()
-	f()
+	case <-time.After(time.Hour):
+		w.r.Fail("operation/never-returns", "%s has not returned after an hour of simulated time (it waits for something that never happens, or retries for ever)", what)
+	}
 }
 
 func sortedKeys[V any](m map[string]V) []string {
